@@ -463,7 +463,7 @@ def expand_c11l(st, seed):
         r["inside"] = _grid(inside_cols)
         r["w"]["dyn"] = [rng.choice([1, 2])] if nres == 1 else [1, 2]
     elif term == "norm":
-        ns = b if has_t else rng.choice([2, 4])
+        ns = b * rng.choice([1, 2]) if has_t else rng.choice([2, 4])     # non-stationary: a multiple of the time batch (the times are repeated)
         samp_cols = [[rng.randint(-2, 2) for _ in range(dim)] for _ in range(ns)]
         r["cols_norm"] = samp_cols
         r["norm"] = dict(on=True, samples=_grid(samp_cols), L=rng.choice([1, 2]))
